@@ -33,6 +33,8 @@ class Variable(Node):
 
 class Value(Node):
     def serialize(self) -> str:
+        if '"' in self.value and "'" not in self.value:
+            return f"'{self}'"
         return f'"{self}"'
 
 
